@@ -26,12 +26,21 @@ def replay(spec):
                                        "B": k1 * (s["A"] / k2) ** 2 / (1 + (s["A"] / k2) ** 2) - k3 * s["B"] * (1 + t),
                                        "C": -k1 * s["C"] / (1 + s["B"] / k2)}),
     }
+    cases["general_names"] = (["S", "E", "I"],
+                              [(["S"], ["E"], "general", {"rate": "N*S*E/(1 + I)"}), (["E"], ["I"], "general", {"rate": "Q*E + O*t"})],
+                              lambda t, s: {"S": -(k1 * s["S"] * s["E"] / (1 + s["I"])), "E": k1 * s["S"] * s["E"] / (1 + s["I"]) - (k2 * s["E"] + k3 * t),
+                                            "I": k2 * s["E"] + k3 * t})
     names = [spec["model"]] if spec.get("model") in cases else list(cases)
     for name in names:
         species, rx, rhs = cases[name]
-        init = {"A": 2.0, "B": 1.0, "C": 3.0}
+        init = {"A": 2.0, "B": 1.0, "C": 3.0} if name != "general_names" else {"S": 2.0, "E": 1.0, "I": 3.0}
+        pkw = dict(parameters=[("N", k1), ("Q", k2), ("O", k3)]) if name == "general_names" else {}
         for tp in (np.linspace(0, 2, 9), np.array([0.0, 0.1, 0.15, 0.9, 2.0])):
-            M = Model(species=species, reactions=rx, initial_condition_dict=init)
+            try:
+                M = Model(species=species, reactions=rx, initial_condition_dict=init, **pkw)
+            except Exception as e:
+                problems.append("%s: Model(...) raised %s: %s" % (name, type(e).__name__, str(e)[:100]))
+                break
             df = py_simulate_model(tp, Model=M, stochastic=False, safe=bool(spec.get("safe")))
             order = M.get_species_list()
             sol = solve_ivp(lambda t, y: [rhs(t, dict(zip(order, y)))[s] for s in order], (tp[0], tp[-1]),
